@@ -112,3 +112,19 @@ Example split_example :
   ind0 5 [3; 3]%nat = [false; false; false; true; false] /\ ind1 5 [3; 3]%nat = [true; true; true; false; true] /\
   sample_size 5 = 2%Z.
 Proof. vm_compute. repeat split. Qed.
+
+(** batch clause at full strength (per voxel): the mean over all molecules of a batch is the molecule-count-weighted mean of the
+    per-tomogram means, for any number of tomograms with at least one molecule each *)
+Lemma weighted_sum_of_means (chunks : list (list Q)) : Forall (fun c => c <> []) chunks ->
+  qsum (map (fun c => inject_Z (Z.of_nat (length c)) * qmean c) chunks) == qsum (map qsum chunks).
+Proof.
+  induction 1 as [|c chunks Hc _ IH]; [reflexivity|].
+  cbn [map qsum]. rewrite IH. rewrite <- (mean_times_count c Hc). ring.
+Qed.
+
+Lemma batch_mean_is_weighted_mean (chunks : list (list Q)) : Forall (fun c => c <> []) chunks ->
+  qmean (concat chunks) ==
+  qsum (map (fun c => inject_Z (Z.of_nat (length c)) * qmean c) chunks) / inject_Z (Z.of_nat (length (concat chunks))).
+Proof.
+  intro H. unfold qmean at 1. rewrite (weighted_sum_of_means chunks H). destruct (chunked_mean chunks) as [E _]. rewrite E. reflexivity.
+Qed.
